@@ -55,3 +55,68 @@ package signature
 //@   trusted
 //@   pure
 //@   ensures err == nil ==> result != nil
+
+// Scalar type descriptions: the signature letter is paired with a fixed-width reader of the
+// documented width (C03: the signature-driven reader accepts exactly the documented bytes).
+//@ immutable typeConstructor.reader
+//@ immutable typeConstructor.signature
+//@ func NewInt8Type() (result Type)
+//@   tags C03
+//@   modifies everything
+//@   ensures[C03] result != nil && typeis(result, *typeConstructor) && unbox(result, *typeConstructor).signature == "c" && typeis(unbox(result, *typeConstructor).reader, constReader) && unbox(unbox(result, *typeConstructor).reader, constReader) == 1
+//@ func NewUint8Type() (result Type)
+//@   tags C03
+//@   modifies everything
+//@   ensures[C03] result != nil && typeis(result, *typeConstructor) && unbox(result, *typeConstructor).signature == "C" && typeis(unbox(result, *typeConstructor).reader, constReader) && unbox(unbox(result, *typeConstructor).reader, constReader) == 1
+//@ func NewInt16Type() (result Type)
+//@   tags C03
+//@   modifies everything
+//@   ensures[C03] result != nil && typeis(result, *typeConstructor) && unbox(result, *typeConstructor).signature == "w" && typeis(unbox(result, *typeConstructor).reader, constReader) && unbox(unbox(result, *typeConstructor).reader, constReader) == 2
+//@ func NewUint16Type() (result Type)
+//@   tags C03
+//@   modifies everything
+//@   ensures[C03] result != nil && typeis(result, *typeConstructor) && unbox(result, *typeConstructor).signature == "W" && typeis(unbox(result, *typeConstructor).reader, constReader) && unbox(unbox(result, *typeConstructor).reader, constReader) == 2
+//@ func NewIntType() (result Type)
+//@   tags C03
+//@   modifies everything
+//@   ensures[C03] result != nil && typeis(result, *typeConstructor) && unbox(result, *typeConstructor).signature == "i" && typeis(unbox(result, *typeConstructor).reader, constReader) && unbox(unbox(result, *typeConstructor).reader, constReader) == 4
+//@ func NewUintType() (result Type)
+//@   tags C03
+//@   modifies everything
+//@   ensures[C03] result != nil && typeis(result, *typeConstructor) && unbox(result, *typeConstructor).signature == "I" && typeis(unbox(result, *typeConstructor).reader, constReader) && unbox(unbox(result, *typeConstructor).reader, constReader) == 4
+//@ func NewLongType() (result Type)
+//@   tags C03
+//@   modifies everything
+//@   ensures[C03] result != nil && typeis(result, *typeConstructor) && unbox(result, *typeConstructor).signature == "l" && typeis(unbox(result, *typeConstructor).reader, constReader) && unbox(unbox(result, *typeConstructor).reader, constReader) == 8
+//@ func NewULongType() (result Type)
+//@   tags C03
+//@   modifies everything
+//@   ensures[C03] result != nil && typeis(result, *typeConstructor) && unbox(result, *typeConstructor).signature == "L" && typeis(unbox(result, *typeConstructor).reader, constReader) && unbox(unbox(result, *typeConstructor).reader, constReader) == 8
+//@ func NewFloatType() (result Type)
+//@   tags C03
+//@   modifies everything
+//@   ensures[C03] result != nil && typeis(result, *typeConstructor) && unbox(result, *typeConstructor).signature == "f" && typeis(unbox(result, *typeConstructor).reader, constReader) && unbox(unbox(result, *typeConstructor).reader, constReader) == 4
+//@ func NewDoubleType() (result Type)
+//@   tags C03
+//@   modifies everything
+//@   ensures[C03] result != nil && typeis(result, *typeConstructor) && unbox(result, *typeConstructor).signature == "d" && typeis(unbox(result, *typeConstructor).reader, constReader) && unbox(unbox(result, *typeConstructor).reader, constReader) == 8
+//@ func NewBoolType() (result Type)
+//@   tags C03
+//@   modifies everything
+//@   ensures[C03] result != nil && typeis(result, *typeConstructor) && unbox(result, *typeConstructor).signature == "b" && typeis(unbox(result, *typeConstructor).reader, constReader) && unbox(unbox(result, *typeConstructor).reader, constReader) == 1
+//@ func NewVoidType() (result Type)
+//@   tags C03
+//@   modifies everything
+//@   ensures[C03] result != nil && typeis(result, *typeConstructor) && unbox(result, *typeConstructor).signature == "v" && typeis(unbox(result, *typeConstructor).reader, constReader) && unbox(unbox(result, *typeConstructor).reader, constReader) == 0
+//@ func NewStringType() (result Type)
+//@   tags C03
+//@   modifies everything
+//@   ensures[C03] result != nil && typeis(result, *typeConstructor) && unbox(result, *typeConstructor).signature == "s" && typeis(unbox(result, *typeConstructor).reader, stringReader)
+//@ func NewValueType() (result Type)
+//@   tags C03
+//@   modifies everything
+//@   ensures[C03] result != nil && typeis(result, *typeConstructor) && unbox(result, *typeConstructor).signature == "m" && typeis(unbox(result, *typeConstructor).reader, valueReader)
+//@ func (t *typeConstructor) Reader() (result TypeReader)
+//@   tags C03
+//@   pure
+//@   ensures[C03] result == t.reader
